@@ -195,7 +195,7 @@ def sus_tau(pred, terms, beta, tau):
 
 
 def cplx(p):
-    return mp.mpc(mp.mpf(p[0]), mp.mpf(p[1]))
+    return mp.mpc(float(p[0]), float(p[1]))          # via float: the library may print nan / inf
 
 
 # ---------------------------------------------------------------------------------------
